@@ -3,9 +3,9 @@
    deals and responses were processed: they hold for whatever state a member is in when
    DistKeyShare succeeds, i.e. for every delivery schedule, skew and re-delivery.
    [honest_deal f i p]: p carries the commitments of f and the value of f at index i. *)
-From Coq Require Import ZArith List Bool.
+From Coq Require Import ZArith List Bool Lia.
 From DosVerif Require Import Base.Val Base.Field Models.Share Models.Tbls Models.Vss Models.Dkg
-     Proofs.ShareProofs Proofs.VssProofs Proofs.DkgProofs.
+     Proofs.ShareProofs Proofs.VssProofs Proofs.DkgProofs Proofs.DkgLive Proofs.ZqField Proofs.SmallPrimes.
 Import ListNotations.
 Local Open Scope Z_scope.
 
@@ -52,6 +52,26 @@ Theorem C04_share_on_polynomial :
 Proof. exact (@finished_share_on_polynomial). Qed.
 Print Assumptions C04_share_on_polynomial.
 
+(* "With every message delivered at least once, every member finishes": member i of any group of
+   n >= 2 honest members (any threshold 2 <= t <= n, any polynomials of t coefficients) receives the
+   deal of every other member - in ANY order js - and then k's approval of j's deal for every dealer
+   j and every responder k other than i and j - in ANY order ps: its session finishes.  (Duplicates
+   are filtered before the session functions; C04's networked runs cover re-delivery.) *)
+Theorem C04_everything_delivered_finishes :
+  forall (F : Type) (O : Fops F), Flaws O ->
+  forall (members : list Z) (t : Z) (polys : Z -> list F) (i : Z),
+  2 <= t <= DkgLive.n members -> 0 <= i < DkgLive.n members ->
+  (forall j, length (polys j) = Z.to_nat t) ->
+  forall (js : list Z) (e : Z -> Z) (ps : list (Z * Z)),
+  NoDup js -> (forall j, In j js <-> 0 <= j < DkgLive.n members /\ j <> i) ->
+  NoDup ps -> (forall j k, In (j, k) ps <-> 0 <= j < DkgLive.n members /\ 0 <= k < DkgLive.n members /\ k <> i /\ k <> j) ->
+  exists C x,
+    session O true (gi0 O members t polys i)
+            (map (fun j => (j, Some (Dj O members t polys i j (e j)))) js)
+            (map (fun jk => (fst jk, Some (Rjk O members t polys (fst jk) (snd jk)))) ps) = Ok (C, x).
+Proof. exact (@session_finishes). Qed.
+Print Assumptions C04_everything_delivered_finishes.
+
 (* non-vacuity, and the message flow of three honest members evaluated on the model:
    every member finishes with the commitment of f0+f1+f2 *)
 Definition P0 : list (zq 101) := [zq_of 101 3; zq_of 101 4].
@@ -73,3 +93,29 @@ Example C04_three_honest_members_finish :
     = VL [VL [VZ 33; VZ 12]; VZ 57].
 Proof. split; vm_compute; reflexivity. Qed.
 Print Assumptions C04_three_honest_members_finish.
+
+(* the premises of C04_everything_delivered_finishes are met by the three members above (member 0,
+   deals arriving in the order 2, 1; approvals in the order used in the example) *)
+Definition polys3 (j : Z) : list (zq 101) := if j =? 1 then P1 else if j =? 2 then P2 else P0.
+Example C04_liveness_premises_hold :
+  Flaws (zq_ops 101) /\ 2 <= 2 <= DkgLive.n mem /\ 0 <= 0 < DkgLive.n mem /\
+  (forall j, length (polys3 j) = Z.to_nat 2) /\
+  NoDup [2; 1] /\ (forall j, In j [2; 1] <-> 0 <= j < DkgLive.n mem /\ j <> 0) /\
+  NoDup [(1, 2); (0, 1); (0, 2); (2, 1)] /\
+  (forall j k, In (j, k) [(1, 2); (0, 1); (0, 2); (2, 1)] <->
+               0 <= j < DkgLive.n mem /\ 0 <= k < DkgLive.n mem /\ k <> 0 /\ k <> j).
+Proof.
+  split; [apply zq_flaws; exact prime_101|].
+  change (DkgLive.n mem) with 3.
+  split; [lia|]. split; [lia|].
+  split; [intros j; unfold polys3; destruct (j =? 1); [reflexivity|destruct (j =? 2); reflexivity]|].
+  split; [repeat constructor; cbn; intuition discriminate|].
+  split; [intros j; cbn; lia|].
+  split; [repeat constructor; cbn; intuition discriminate|].
+  intros j k. cbn [In]. split.
+  - intros [H|[H|[H|[H|[]]]]]; injection H as <- <-; lia.
+  - intros [Hj [Hk [Hk0 Hkj]]].
+    assert (Ej : j = 0 \/ j = 1 \/ j = 2) by lia. assert (Ek : k = 1 \/ k = 2) by lia.
+    destruct Ej as [-> | [-> | ->]], Ek as [-> | ->]; try lia; tauto.
+Qed.
+Print Assumptions C04_liveness_premises_hold.
